@@ -38,3 +38,20 @@ Definition check_inline_dhtv (m : nat) (g : bool) (K Tn : nat) (stft start width
 Definition check_inline_chain (m : nat) (K Tn : nat)
     (aff quad impl_aff impl_quad : list (list (list float))) : bool * float :=
   check_inline (greedy_chain FO tinyF (metric_of m) K Tn) aff quad impl_aff impl_quad.
+
+(* exhaustive plan comparison by hash: all (width, start, shift) with 1 <= width <= F,
+   0 <= start <= F - width, 1 <= shift <= width, in this order; impl = the hashes of the
+   implementation's plans in the same order.  h = (h * 1000003 + x + 1) mod (2^61 - 1) over n, s, e. *)
+Definition zrange (a n : Z) : list Z := map (fun i => (a + Z.of_nat i)%Z) (seq 0 (Z.to_nat n)).
+Definition plan_hash (pl : list seg) : Z :=
+  fold_left (fun h (g : seg) => let '(n, s, e) := g in
+     let st := fun h x => ((h * 1000003 + x + 1) mod 2305843009213693951)%Z in st (st (st h n) s) e) pl 0%Z.
+Definition plan_configs (F : Z) : list (Z * Z * Z) :=
+  flat_map (fun w => flat_map (fun st => map (fun sh => (st, w, sh)) (zrange 1 w)) (zrange 0 (F - w + 1))) (zrange 1 F).
+Definition check_plan_hashes (stft main sub : Z) (impl : list Z) : bool * float :=
+  let F := stft_bins stft in
+  okR (eq_zlist (map (fun c => let '(st, w, sh) := c in plan_hash (plan F st w sh main sub)) (plan_configs F)) impl).
+(* coverage of the model's plan for every configuration of one stft size (the theorem, re-run) *)
+Definition check_plan_cover_all (stft : Z) : bool * float :=
+  let F := stft_bins stft in
+  okR (forallb (fun c => let '(st, w, sh) := c in plan_covers_b stft st w sh) (plan_configs F)).
